@@ -172,7 +172,8 @@ struct Extractor {
         if (!first) O << ','; first = false;
         std::string n;
         llvm::raw_string_ostream s(n);
-        a.getAsTemplateOrTemplatePattern().print(s, PP);
+        if (TemplateDecl *TD = a.getAsTemplateOrTemplatePattern().getAsTemplateDecl()) TD->printQualifiedName(s, PP);
+        else a.getAsTemplateOrTemplatePattern().print(s, PP);
         O << "{\"tt\":" << S.get(s.str()) << '}';
         break;
       }
@@ -298,6 +299,7 @@ struct Extractor {
       O << ",\"v\":" << EC->getInitVal().getExtValue();
     } else if (auto *V = dyn_cast<VarDecl>(D)) {
       if (!V->isLocalVarDecl() && !isa<ParmVarDecl>(V)) { O << ",\"q\":"; jstr(O, plainQual(V)); }
+      if (auto *VS = dyn_cast<VarTemplateSpecializationDecl>(V)) { O << ",\"ta\":"; targList(O, VS->getTemplateArgs().asArray()); }
       // value of constant integral variables (static const members, constexpr locals)
       if (V->getType().isConstQualified() && V->getType()->isIntegralOrEnumerationType() && !isa<ParmVarDecl>(V)) {
         const Expr *I = V->getAnyInitializer();
@@ -753,7 +755,29 @@ struct Extractor {
     for (auto *Fd : R->fields()) {
       if (!first) O << ','; first = false;
       O << "{\"n\":"; jstr(O, Fd->getName()); O << ",\"t\":" << ty(Fd->getType()) << ",\"init\":" << (Fd->hasInClassInitializer() ? 1 : 0);
-      O << ",\"mut\":" << (Fd->isMutable() ? 1 : 0) << '}';
+      O << ",\"mut\":" << (Fd->isMutable() ? 1 : 0);
+      if (Fd->hasInClassInitializer() && Fd->getInClassInitializer()) {
+        // declarations referenced by the default member initialiser (name + template arguments), literal initialisers
+        O << ",\"irefs\":[";
+        bool f1 = true;
+        std::function<void(const Stmt *)> walk = [&](const Stmt *st) {
+          if (!st) return;
+          if (auto *DR = dyn_cast<DeclRefExpr>(st)) {
+            if (!f1) O << ','; f1 = false;
+            O << "{\"n\":"; jstr(O, DR->getDecl()->getNameAsString());
+            if (auto *VS = dyn_cast<VarTemplateSpecializationDecl>(DR->getDecl())) { O << ",\"ta\":"; targList(O, VS->getTemplateArgs().asArray()); }
+            O << '}';
+          }
+          for (auto *c : st->children()) walk(c);
+        };
+        walk(Fd->getInClassInitializer());
+        O << ']';
+        const Expr *IE = Fd->getInClassInitializer()->IgnoreParenImpCasts();
+        if (auto *IL = dyn_cast<InitListExpr>(IE)) O << ",\"ilist\":" << IL->getNumInits();
+        Expr::EvalResult Rr;
+        if (!IE->isValueDependent() && IE->getType()->isScalarType() && IE->EvaluateAsInt(Rr, C)) O << ",\"iv\":" << Rr.Val.getInt().getExtValue();
+      }
+      O << '}';
     }
     O << "],\"tds\":{";
     first = true;
